@@ -32,7 +32,7 @@ ASSUMPTIONS = [
 ALL_OPS = ["ctor_interval", "ctor_point", "ctor_bad", "crop", "erase", "space", "shift",
            "insert", "insert", "insert", "delete", "union", "difference", "intersection",
            "mergeLabels", "appendTier", "dejitter", "morph", "new", "roundtrip", "json_open",
-           "ctor_shared", "tg_edit"]
+           "ctor_shared", "tg_edit", "sort"]
 
 
 def config(rng, tier):
@@ -304,6 +304,8 @@ def generate(run, rng):
             st = g.step_morph(w, h, h2)
         elif op == "new":
             st = g.step_new(w, h)
+        elif op == "sort":
+            st = {"op": "tier.sort", "recv": h}
         elif op == "roundtrip":
             # Textgrid of some heap tiers -> save (random format) -> open -> tiers back on the heap
             tg = w.new_handle()
